@@ -1,7 +1,668 @@
-//! C08 — not built yet.
-use crate::report::Tier;
+//! C08 — read queries return what the pattern semantics defines.
+//! Random (graph, query) pairs from the shared core; every query is rendered in each language
+//! that can express it, executed on an epoch-0 in-memory database filled through the direct
+//! API, and judged against an independent reference evaluation over the Model. Failing pairs
+//! are shrunk; the signature is language + mismatch kind + canonical skeleton of the shrunk query.
 
-pub fn run(_tier: Tier, _seed: u64) -> ! {
-    println!("INCONCLUSIVE property=C08 reason=monitor not built yet");
-    std::process::exit(2)
+#[path = "c08_gen.rs"]
+pub mod graph;
+#[path = "c08_ast.rs"]
+pub mod ast;
+#[path = "c08_render.rs"]
+pub mod render;
+#[path = "c08_eval.rs"]
+pub mod eval;
+#[path = "c08_exec.rs"]
+pub mod exec;
+#[path = "c08_shrink.rs"]
+pub mod shrink;
+
+use crate::report::{Report, Tier};
+use crate::rng::{Rng, hash_str};
+use ast::*;
+use eval::{Rule, Rules, Undecided, eval_rows};
+use exec::{Outcome, judge, run as run_query, show_rows};
+use graph::{GraphSpec, build};
+use render::{LANGS, Lang, render};
+use serde_json::json;
+use std::collections::BTreeMap;
+
+pub const BIND_CAP: usize = 30_000;
+
+#[derive(Default)]
+pub struct CaseOut {
+    pub evals: u64,
+    pub nontrivial: Option<u64>,
+    pub counters: BTreeMap<String, u64>,
+    pub deviations: Vec<(String, serde_json::Value)>,
+    pub known: Vec<(String, String)>,
+    pub sample: Option<serde_json::Value>,
+}
+
+impl CaseOut {
+    pub fn count(&mut self, k: &str) {
+        *self.counters.entry(k.to_string()).or_insert(0) += 1;
+    }
+}
+
+thread_local! {
+    /// rows of the last answered query (for the pairwise cross-language comparison)
+    static LAST_ROWS: std::cell::RefCell<Option<Vec<eval::Row>>> = const { std::cell::RefCell::new(None) };
+}
+
+#[derive(Debug, Clone)]
+pub enum Verdict {
+    Agree,
+    /// differs from the specification exactly as the open findings' rules predict
+    Known(Vec<Rule>),
+    /// a rule that cannot be emulated exactly applies: not judged (directed cells decide)
+    Tainted(Rule),
+    Mismatch(String, String),
+    Undecided(String),
+    Inexpressible,
+}
+
+fn judge_opts(q: &Query, lang: Lang, r: &Rules) -> exec::JudgeOpts {
+    let retyped = eval::edge_cols_retyped(q, lang, r, 1).unwrap_or(true);
+    let order_on_edge = match &q.ret {
+        Ret::Plain { items, .. } => q.order.iter().any(|o| matches!(items[o.col], Proj::Prop(Var::E(_), _))),
+        _ => false,
+    };
+    exec::JudgeOpts { window_first: lang == Lang::Gql && r.on(Rule::GqlWindowFirst), no_order_check: retyped && order_on_edge }
+}
+
+/// does the observed result agree with the evaluation under `r`?
+fn agrees(m: &crate::model::Model, q: &Query, lang: Lang, r: &Rules, rows: &[eval::Row]) -> Result<Option<exec::Mismatch>, Undecided> {
+    let full = eval_rows(m, q, lang, r, BIND_CAP)?;
+    if r.on(Rule::NullLostTyped) {
+        // vector.rs set_null: in a typed column only the first null survives, later ones read
+        // as the column default. Which null comes first depends on the engine's row order, so
+        // null and the default are identified in those columns.
+        use grafeo_common::types::Value;
+        let defaults: Vec<Option<Value>> = match &q.ret {
+            Ret::Plain { items, .. } => items.iter().map(|p| if matches!(p, Proj::Type(_)) { Some(crate::vals::s("")) } else { None }).collect(),
+            Ret::Agg { keys, aggs } => keys
+                .iter()
+                .map(|_| None)
+                .chain(aggs.iter().map(|a| match a.f {
+                    AggFn::Min | AggFn::Max => Some(Value::Int64(0)),
+                    AggFn::Avg => Some(Value::Float64(0.0)),
+                    _ => None,
+                }))
+                .collect(),
+        };
+        if defaults.iter().any(Option::is_some) {
+            let sub = |rows: &[eval::Row]| -> Vec<eval::Row> {
+                rows.iter().map(|r| r.iter().enumerate().map(|(i, v)| match (&defaults[i], v) {
+                    (Some(d), Value::Null) => d.clone(),
+                    _ => v.clone(),
+                }).collect()).collect()
+            };
+            let mut o = judge_opts(q, lang, r);
+            // a lost null sorts as the default value, the surviving one as null
+            if q.order.iter().any(|k| defaults[k.col].is_some()) {
+                o.no_order_check = true;
+            }
+            return Ok(judge(q, &sub(&full), &sub(rows), o));
+        }
+    }
+    Ok(judge(q, &full, rows, judge_opts(q, lang, r)))
+}
+
+/// a minimal set of open rules that explains the observation (greedy elimination)
+fn attribute(dev: &Rules, ok: &dyn Fn(&Rules) -> bool) -> Vec<Rule> {
+    let mut cur = dev.clone();
+    for (r, _) in eval::RULE_IDS {
+        if cur.on(r) {
+            let t = cur.without(r);
+            if ok(&t) {
+                cur = t;
+            }
+        }
+    }
+    eval::RULE_IDS.iter().map(|x| x.0).filter(|r| cur.on(*r)).collect()
+}
+
+/// Verdict of one (graph, query, language) observation.
+pub fn verdict(b: &graph::Built, q: &Query, lang: Lang, dev: &Rules) -> (Verdict, String) {
+    let Some(r) = render(q, lang) else { return (Verdict::Inexpressible, String::new()) };
+    verdict_r(b, q, lang, dev, r)
+}
+
+/// rows of the last query answered on this thread (C11 reads the engine's answer from here)
+pub fn take_last_rows() -> Option<Vec<eval::Row>> {
+    LAST_ROWS.with(|l| l.borrow_mut().take())
+}
+
+/// same, for a text rendered by the caller (`q` is then the model of what the text asks)
+pub fn verdict_r(b: &graph::Built, q: &Query, lang: Lang, dev: &Rules, r: render::Rendered) -> (Verdict, String) {
+    let none = Rules::none();
+    let spec = eval_rows(&b.model, q, lang, &none, BIND_CAP);
+    let tainted = |dev: &Rules| match eval_rows(&b.model, q, lang, dev, BIND_CAP) {
+        Err(Undecided::Tainted(r)) => Some(r),
+        _ => None,
+    };
+    match run_query(&b.db, lang, &r, q.ncols()) {
+        Outcome::Rows(rows) => {
+            LAST_ROWS.with(|l| *l.borrow_mut() = Some(rows.clone()));
+            let full = match spec {
+                Ok(f) => f,
+                Err(u) => return (Verdict::Undecided(format!("{u:?}")), r.text),
+            };
+            let Some(mm) = judge(q, &full, &rows, exec::JudgeOpts::default()) else { return (Verdict::Agree, r.text) };
+            let detail = format!("{}; expected(full) {:?}; got {:?}", mm.note, show_rows(&full, 12), show_rows(&rows, 12));
+            if dev.any() {
+                match agrees(&b.model, q, lang, dev, &rows) {
+                    Ok(None) => {
+                        let ok = |rs: &Rules| matches!(agrees(&b.model, q, lang, rs, &rows), Ok(None));
+                        return (Verdict::Known(attribute(dev, &ok)), r.text);
+                    }
+                    Err(Undecided::Tainted(t)) => return (Verdict::Tainted(t), r.text),
+                    Err(u) => return (Verdict::Undecided(format!("{u:?}")), r.text),
+                    Ok(Some(m2)) => {
+                        let d = eval_rows(&b.model, q, lang, dev, BIND_CAP).map(|x| show_rows(&x, 12)).unwrap_or_default();
+                        return (Verdict::Mismatch(mm.kind.to_string(), format!("{detail}; with the open findings' rules: {} expected {d:?}", m2.note)), r.text);
+                    }
+                }
+            }
+            (Verdict::Mismatch(mm.kind.to_string(), detail), r.text)
+        }
+        Outcome::Syntax(c) | Outcome::Error(c, _) => {
+            for (rule, pat) in eval::expected_errors(q, lang, dev) {
+                if c.contains(pat) {
+                    return (Verdict::Known(vec![rule]), r.text);
+                }
+            }
+            if let Some(t) = tainted(dev) {
+                return (Verdict::Tainted(t), r.text);
+            }
+            (Verdict::Mismatch(format!("error:{c}"), c), r.text)
+        }
+        Outcome::Panic(p) => (Verdict::Mismatch(format!("panic@{}", p.site), format!("{} at {}", p.msg, p.at)), r.text),
+        Outcome::Shape(s) => {
+            if let Some(t) = tainted(dev) {
+                return (Verdict::Tainted(t), r.text);
+            }
+            (Verdict::Mismatch("wrong_columns".to_string(), s), r.text)
+        }
+    }
+}
+
+/// mismatch kinds that may turn into each other while a failing pair is being shrunk
+pub fn family(kind: &str) -> String {
+    match kind {
+        "missing_rows" | "extra_rows" | "wrong_value" | "wrong_order" => "rows".into(),
+        k if k.starts_with("error:") && k.contains("syntax error") => "syntax".into(),
+        k => k.to_string(),
+    }
+}
+
+pub fn signature(lang: Lang, kind: &str, q: &Query) -> String {
+    format!("{}|{}|{}", lang.name(), kind, skeleton(q, lang == Lang::Cypher))
+}
+
+/// Judge one pair in every language; shrink and sign the unexplained failures.
+pub fn process(g: &GraphSpec, q: &Query, dev: &Rules, out: &mut CaseOut, stratum: &str) {
+    let b = build(g);
+    let none = Rules::none();
+    let full = match eval_rows(&b.model, q, Lang::Cypher, &none, BIND_CAP) {
+        Ok(rows) => rows,
+        Err(u) => {
+            out.count(&format!("undecided.{}", match u {
+                Undecided::TooMany => "too_many_bindings",
+                Undecided::Infinite => "unbounded_over_cycle",
+                Undecided::MixedMinMax => "minmax_over_mixed_kinds",
+                Undecided::Tainted(_) => "tainted",
+            }));
+            return;
+        }
+    };
+    let nontrivial = (!q.edges.is_empty() || q.pred.is_some()) && !full.is_empty();
+    if nontrivial {
+        out.nontrivial = Some(hash_str(&format!("{q:?}|{}|{}", g.nodes.len(), g.edges.len())));
+    }
+    if full.len() > 2048 {
+        out.count("reference_rows_over_2048");
+    }
+    let mut answered: Vec<&'static str> = Vec::new();
+    let mut failed: Vec<(Lang, String, String)> = Vec::new();
+    let mut answers: Vec<(Lang, Vec<eval::Row>)> = Vec::new();
+    for lang in LANGS {
+        LAST_ROWS.with(|l| *l.borrow_mut() = None);
+        let (v, text) = verdict(&b, q, lang, dev);
+        if let Some(rows) = LAST_ROWS.with(|l| l.borrow_mut().take()) {
+            answers.push((lang, rows));
+        }
+        if matches!(v, Verdict::Inexpressible) {
+            out.count(&format!("inexpressible.{}", lang.name()));
+            continue;
+        }
+        out.evals += 1;
+        out.count(&format!("executed.{}.{stratum}", lang.name()));
+        if out.sample.is_none() && nontrivial && lang == Lang::Gql {
+            out.sample = Some(json!({"graph": {"nodes": g.nodes.len(), "edges": g.edges.len()}, "gql": text, "reference_rows": full.len()}));
+        }
+        match v {
+            Verdict::Agree => {
+                answered.push(lang.name());
+                out.count(&format!("agree.{}", lang.name()));
+            }
+            Verdict::Known(rules) => {
+                out.count(&format!("explained_by_open_findings.{}", lang.name()));
+                for r in rules {
+                    out.known.push((eval::rule_id(r).to_string(), format!("{}: {text}", lang.name())));
+                }
+            }
+            Verdict::Tainted(r) => {
+                out.count(&format!("not_judged.tainted_by_{}", eval::rule_id(r)));
+            }
+            Verdict::Undecided(u) => out.count(&format!("undecided.{}", u.split('(').next().unwrap_or("x"))),
+            Verdict::Mismatch(kind, _) => failed.push((lang, kind, text)),
+            Verdict::Inexpressible => {}
+        }
+    }
+    // the same question in two languages: direct pairwise comparison (only where the answer is
+    // fully determined: no ORDER BY / SKIP / LIMIT). A disagreement is attributed through the
+    // reference: at least one side then differs from it and is reported (or explained) above.
+    if q.order.is_empty() && q.skip.is_none() && q.limit.is_none() {
+        for i in 0..answers.len() {
+            for j in i + 1..answers.len() {
+                out.count("xlang.pairs_compared");
+                if judge(q, &answers[i].1, &answers[j].1, exec::JudgeOpts::default()).is_some() {
+                    out.count(&format!("xlang.pairs_disagree.{}_vs_{}", answers[i].0.name(), answers[j].0.name()));
+                }
+            }
+        }
+    }
+    for (lang, kind, text) in failed {
+        out.count(&format!("mismatch.{}", lang.name()));
+        let fam = family(&kind);
+        let mut fails = |g2: &GraphSpec, q2: &Query| {
+            let b2 = build(g2);
+            matches!(verdict(&b2, q2, lang, dev).0, Verdict::Mismatch(k, _) if family(&k) == fam)
+        };
+        let (g2, q2, used) = shrink::shrink(g, q, 200, &mut fails);
+        let b2 = build(&g2);
+        let (kind2, detail) = match verdict(&b2, &q2, lang, dev).0 {
+            Verdict::Mismatch(k, d) => (k, d),
+            _ => (kind.clone(), String::new()),
+        };
+        let sig = signature(lang, &kind2, &q2);
+        let shrunk_text = render(&q2, lang).map(|r| r.text).unwrap_or_default();
+        out.deviations.push((
+            sig,
+            json!({
+                "language": lang.name(), "kind": kind2, "kind_before_shrinking": kind,
+                "original_query": text, "shrunk_query": shrunk_text,
+                "shrunk_graph": g2.to_json(), "observed_vs_expected": detail,
+                "languages_that_agreed_on_the_original": answered, "shrink_executions": used,
+            }),
+        ));
+    }
+}
+
+// ------------------------------------------------------------------ probes
+
+/// Constructs no front end of this engine can express (rejected with Err by all of them):
+/// left out of the generator, listed in the assumptions, re-checked on every run.
+const PROBES: &[(&str, Lang, &str)] = &[
+    ("union_all", Lang::Cypher, "MATCH (n:P) RETURN n.uid AS c0 UNION ALL MATCH (n:Q) RETURN n.uid AS c0"),
+    ("union", Lang::Gremlin, "g.V().union(out('R'), out('S')).values('uid')"),
+    ("group_by_type", Lang::Gql, "MATCH (a)-[r]->(b) RETURN type(r) AS c0, count(r) AS c1"),
+    ("group_by_type", Lang::Cypher, "MATCH (a)-[r]->(b) RETURN type(r) AS c0, count(r) AS c1"),
+    ("group_by_labels", Lang::Gql, "MATCH (n) RETURN labels(n) AS c0, count(n) AS c1"),
+    ("group_by_labels", Lang::Cypher, "MATCH (n) RETURN labels(n) AS c0, count(n) AS c1"),
+    ("group_by_id", Lang::Gql, "MATCH (n) RETURN id(n) AS c0, count(n) AS c1"),
+    ("group_by_id", Lang::Cypher, "MATCH (n) RETURN id(n) AS c0, count(n) AS c1"),
+    ("arith_in_return", Lang::Gql, "MATCH (n) RETURN n.uid + 1 AS c0"),
+    ("arith_in_return", Lang::Cypher, "MATCH (n) RETURN n.uid + 1 AS c0"),
+    ("order_by_group_key", Lang::Gql, "MATCH (n) RETURN n.k AS c0, count(n) AS c1 ORDER BY n.k"),
+    ("order_by_group_key", Lang::Cypher, "MATCH (n) RETURN n.k AS c0, count(n) AS c1 ORDER BY n.k"),
+    ("order_by_function", Lang::Gql, "MATCH (n) RETURN id(n) AS c0 ORDER BY id(n)"),
+    ("repeat_times", Lang::Gremlin, "g.V().repeat(out()).times(2).values('uid')"),
+    ("select_by", Lang::Gremlin, "g.V().as('a').out().as('b').select('a','b').by('uid')"),
+];
+
+fn probes(rep: &mut Report) {
+    let mut r = Rng::new(7, "c08.probe", 0);
+    let g = graph::random_graph(&mut r, 12, 1.5);
+    let b = build(&g);
+    for (name, lang, text) in PROBES {
+        match exec::execute(&b.db, *lang, text) {
+            Ok(Ok(_)) => rep.count(&format!("probe.accepted_now.{name}.{}", lang.name()), 1),
+            Ok(Err(_)) => rep.count("probe.still_rejected", 1),
+            Err(p) => rep.deviation(&format!("{}|panic@{}|probe:{name}", lang.name(), p.site), json!({"query": text, "panic": p.msg})),
+        }
+    }
+}
+
+// ------------------------------------------------------------------ directed cases
+
+pub fn chain_graph(n: usize) -> GraphSpec {
+    use grafeo_common::types::Value;
+    let mut g = GraphSpec::default();
+    for i in 0..n {
+        g.nodes.push(graph::GNode { labels: vec!["P".into()], props: vec![("uid".into(), Value::Int64(i as i64 + 1))] });
+    }
+    for i in 0..n.saturating_sub(1) {
+        g.edges.push(graph::GEdge { src: i, dst: i + 1, ty: "R".into(), props: vec![("uid".into(), Value::Int64(1000 + i as i64))] });
+    }
+    g
+}
+
+pub fn base_query(hops: usize) -> Query {
+    Query {
+        nodes: (0..=hops).map(|_| NodePat { labels: vec![] }).collect(),
+        edges: (0..hops).map(|_| EdgePat { named: false, types: vec![], dir: Dir::Out, len: None }).collect(),
+        pred: None,
+        ret: Ret::Plain { items: vec![Proj::Prop(Var::N(0), "uid".into()), Proj::Prop(Var::N(hops), "uid".into())], distinct: false },
+        order: vec![],
+        skip: None,
+        limit: None,
+        order_in_with: false,
+    }
+}
+
+/// deterministic cells run on every invocation: constructs the random generator reaches rarely
+/// or never (unbounded length over a long acyclic chain, zero-length paths) and the defects the
+/// reference model does not emulate (judged here with the tainting rule switched off, so that
+/// they are reported under fixed signatures listed in their finding)
+fn directed(dev: &Rules) -> Vec<(GraphSpec, Query, Rules)> {
+    let mut v = Vec::new();
+    let mut q = base_query(1);
+    q.edges[0].len = Some((1, None));
+    q.edges[0].types = vec!["R".into()];
+    v.push((chain_graph(14), q.clone(), dev.clone()));
+    v.push((chain_graph(5), q.clone(), dev.clone()));
+    let mut q0 = base_query(1);
+    q0.edges[0].len = Some((0, Some(1)));
+    v.push((chain_graph(3), q0.clone(), dev.clone()));
+    q0.edges[0].len = Some((0, Some(2)));
+    v.push((chain_graph(4), q0, dev.clone()));
+    let mut q2 = base_query(1);
+    q2.edges[0].len = Some((2, None));
+    v.push((chain_graph(6), q2, dev.clone()));
+    // C08-F9: factorized chain with an empty level
+    let no9 = dev.without(Rule::FactorizedEmptyLevel);
+    let mut a = base_query(2);
+    a.ret = Ret::Plain { items: vec![Proj::Prop(Var::N(0), "uid".into())], distinct: false };
+    v.push((chain_graph(1), a.clone(), no9.clone()));
+    v.push((chain_graph(2), a.clone(), no9.clone()));
+    let mut b = a.clone();
+    b.ret = Ret::Plain { items: vec![Proj::Prop(Var::N(1), "uid".into())], distinct: false };
+    v.push((chain_graph(2), b, no9.clone()));
+    let mut b2 = a.clone();
+    b2.ret = Ret::Plain { items: vec![Proj::Prop(Var::N(2), "uid".into())], distinct: false };
+    v.push((chain_graph(1), b2.clone(), no9.clone()));
+    v.push((chain_graph(2), b2.clone(), no9.clone()));
+    b2.nodes[0].labels = vec!["P".into()];
+    b2.edges[0].types = vec!["R".into()];
+    b2.edges[1].types = vec!["R".into()];
+    v.push((chain_graph(2), b2, no9.clone()));
+    let mut c = a.clone();
+    c.ret = Ret::Agg { keys: vec![], aggs: vec![Agg { f: AggFn::Count, arg: AggArg::Var(Var::N(0)), distinct: false }] };
+    v.push((chain_graph(2), c, no9.clone()));
+    let mut d = base_query(3);
+    d.nodes[1].labels = vec!["P".into()];
+    d.ret = Ret::Plain { items: vec![Proj::Prop(Var::N(0), "uid".into())], distinct: false };
+    v.push((chain_graph(2), d, no9.clone()));
+    // C08-F10: GQL applies SKIP/LIMIT before aggregation
+    let no10 = dev.without(Rule::GqlWindowFirst);
+    let mut e = base_query(0);
+    e.ret = Ret::Agg { keys: vec![], aggs: vec![Agg { f: AggFn::Count, arg: AggArg::Var(Var::N(0)), distinct: false }] };
+    e.limit = Some(0);
+    v.push((chain_graph(3), e.clone(), no10.clone()));
+    e.limit = Some(1);
+    v.push((chain_graph(3), e.clone(), no10.clone()));
+    e.limit = None;
+    e.skip = Some(1);
+    v.push((chain_graph(3), e, no10.clone()));
+    // C08-F27: edge predicate checked against the node zone map of the same key
+    let mut f = base_query(1);
+    f.ret = Ret::Plain { items: vec![Proj::Prop(Var::N(0), "uid".into())], distinct: false };
+    f.pred = Some(Pred::Cmp(CmpOp::Gt, Term::Prop(Var::E(0), "uid".into()), Term::Const(grafeo_common::types::Value::Int64(500))));
+    f.fix_names();
+    v.push((chain_graph(2), f, dev.clone()));
+    // C08-F27 (b): zone map of a mixed-kind column
+    let gb = parse_graph("1/Q/k='b';2/P/k=true");
+    let mut h = base_query(0);
+    h.ret = Ret::Plain { items: vec![Proj::Prop(Var::N(0), "uid".into())], distinct: false };
+    h.pred = Some(Pred::Cmp(CmpOp::Ne, Term::Prop(Var::N(0), "k".into()), Term::Const(crate::vals::s("b"))));
+    v.push((gb, h, dev.clone()));
+    v
+}
+
+// ------------------------------------------------------------------ driver
+
+fn case(seed: u64, i: u64, big: bool, dev: &Rules) -> CaseOut {
+    let mut out = CaseOut::default();
+    let mut gr = Rng::new(seed, if big { "c08.biggraph" } else { "c08.graph" }, i / 4);
+    let g = if big { graph::random_graph(&mut gr, 70, 3.0) } else { graph::random_graph(&mut gr, 40, 1.2) };
+    let mut qr = Rng::new(seed, if big { "c08.bigquery" } else { "c08.query" }, i);
+    let cfg = if big { GenCfg { max_hops: 2, p_varlen: 0.05, ..GenCfg::default() } } else { GenCfg::default() };
+    // three generator modes: the whole core (mostly GQL/Cypher), and the narrower subsets that
+    // Gremlin and GraphQL can express (so that those front ends are exercised as well)
+    let q = match if big { 0 } else { i % 10 } {
+        0..=5 => gen_query(&mut qr, &cfg),
+        6..=8 => gen_gremlin_query(&mut qr),
+        _ => gen_graphql_query(&mut qr),
+    };
+    process(&g, &q, dev, &mut out, if big { "big" } else { "small" });
+    out
+}
+
+/// graphs with more than 2048 nodes / edges: scans and expands span several chunks; windows
+/// around the chunk boundary
+fn huge_case(seed: u64, i: u64, dev: &Rules) -> CaseOut {
+    let mut out = CaseOut::default();
+    let mut gr = Rng::new(seed, "c08.hugegraph", i / 6);
+    let g = graph::huge_graph(&mut gr);
+    let mut qr = Rng::new(seed, "c08.hugequery", i);
+    let cfg = GenCfg { max_hops: 1, p_varlen: 0.0, p_window: 0.6, p_order: 0.5, ..GenCfg::default() };
+    let mut q = match i % 4 {
+        0 | 1 => gen_query(&mut qr, &cfg),
+        2 => gen_gremlin_query(&mut qr),
+        _ => gen_graphql_query(&mut qr),
+    };
+    if q.edges.len() > 1 {
+        q.nodes.truncate(2);
+        q.edges.truncate(1);
+        if !q.well_formed() || q.pred.as_ref().is_some_and(|p| {
+            let mut s = std::collections::BTreeSet::new();
+            pred_vars(p, &mut s);
+            s.iter().any(|v| matches!(v, Var::N(i) if *i > 1) || matches!(v, Var::E(i) if *i > 0))
+        }) {
+            q = gen_query(&mut qr, &GenCfg { max_hops: 0, ..GenCfg::default() });
+        }
+    }
+    // windows around the chunk size
+    if q.skip.is_some() && qr.chance(0.7) {
+        q.skip = Some(*qr.pick(&[0u64, 1, 2047, 2048, 2049, 2100, 4096]));
+    }
+    if q.limit.is_some() && qr.chance(0.7) {
+        q.limit = Some(*qr.pick(&[0u64, 1, 2047, 2048, 2049, 2100, 4096]));
+    }
+    q.fix_names();
+    if q.well_formed() {
+        process(&g, &q, dev, &mut out, "huge");
+    }
+    out
+}
+
+pub fn run_parallel<T: Send>(n: u64, threads: usize, f: impl Fn(u64) -> T + Sync) -> Vec<T> {
+    let mut all: Vec<(u64, T)> = Vec::new();
+    std::thread::scope(|s| {
+        let hs: Vec<_> = (0..threads as u64)
+            .map(|w| {
+                let f = &f;
+                s.spawn(move || {
+                    let mut v = Vec::new();
+                    let mut i = w;
+                    while i < n {
+                        v.push((i, f(i)));
+                        i += threads as u64;
+                    }
+                    v
+                })
+            })
+            .collect();
+        for h in hs {
+            all.extend(h.join().expect("worker"));
+        }
+    });
+    all.sort_by_key(|x| x.0);
+    all.into_iter().map(|x| x.1).collect()
+}
+
+pub fn merge(rep: &mut Report, out: CaseOut) {
+    rep.evals(out.evals);
+    if let Some(h) = out.nontrivial {
+        rep.nontrivial(h);
+    }
+    for (k, n) in out.counters {
+        rep.count(&k, n);
+    }
+    if let Some(s) = out.sample {
+        rep.sample(s);
+    }
+    for (sig, d) in out.deviations {
+        rep.deviation(&sig, d);
+    }
+    for (id, ex) in out.known {
+        rep.known_rule(&id, &ex);
+    }
+}
+
+pub fn threads() -> usize {
+    std::env::var("VH_THREADS").ok().and_then(|s| s.parse().ok()).unwrap_or_else(|| std::thread::available_parallelism().map(|n| n.get()).unwrap_or(8).min(16))
+}
+
+/// tiny DSL for hand-made graphs: "uid/labels/props;...|uid/src>dst/TYPE/props;..." e.g.
+/// "1/P,Q/k=1,s='a';2//|10/1>2/R/w=2"
+pub fn parse_graph(d: &str) -> GraphSpec {
+    use grafeo_common::types::Value;
+    fn val(s: &str) -> Value {
+        let s = s.trim();
+        if s == "null" {
+            Value::Null
+        } else if s == "true" || s == "false" {
+            Value::Bool(s == "true")
+        } else if let Some(x) = s.strip_prefix('\'') {
+            crate::vals::s(x.trim_end_matches('\''))
+        } else if s.contains('.') {
+            Value::Float64(s.parse().unwrap())
+        } else {
+            Value::Int64(s.parse().unwrap())
+        }
+    }
+    fn props(uid: &str, s: &str) -> Vec<(String, Value)> {
+        let mut v = vec![("uid".to_string(), val(uid))];
+        for kv in s.split(',').filter(|x| !x.trim().is_empty()) {
+            let (k, x) = kv.split_once('=').unwrap();
+            v.push((k.trim().to_string(), val(x)));
+        }
+        v
+    }
+    let (ns, es) = d.split_once('|').unwrap_or((d, ""));
+    let mut g = GraphSpec::default();
+    let mut uids = Vec::new();
+    for n in ns.split(';').filter(|x| !x.trim().is_empty()) {
+        let p: Vec<&str> = n.split('/').collect();
+        uids.push(p[0].trim().to_string());
+        g.nodes.push(graph::GNode { labels: p[1].split(',').filter(|x| !x.trim().is_empty()).map(|x| x.trim().to_string()).collect(), props: props(p[0], p.get(2).copied().unwrap_or("")) });
+    }
+    for e in es.split(';').filter(|x| !x.trim().is_empty()) {
+        let p: Vec<&str> = e.split('/').collect();
+        let (a, b) = p[1].split_once('>').unwrap();
+        let pos = |u: &str| uids.iter().position(|x| x == u.trim()).unwrap();
+        g.edges.push(graph::GEdge { src: pos(a), dst: pos(b), ty: p[2].trim().to_string(), props: props(p[0], p.get(3).copied().unwrap_or("")) });
+    }
+    g
+}
+
+fn playground() {
+    // C08_PLAY="<lang>;;<graph seed>;;<query>": run one text on a generated epoch-0 graph
+    let spec = std::env::var("C08_PLAY").unwrap();
+    let parts: Vec<&str> = spec.split(";;").collect();
+    let lang = match parts[0] {
+        "gql" => Lang::Gql,
+        "cypher" => Lang::Cypher,
+        "gremlin" => Lang::Gremlin,
+        _ => Lang::GraphQL,
+    };
+    let g = if let Ok(d) = std::env::var("C08_GRAPH") {
+        parse_graph(&d)
+    } else {
+        let mut r = Rng::new(parts[1].parse().unwrap_or(1), "c08.play", 0);
+        graph::random_graph(&mut r, 8, 1.2)
+    };
+    println!("{}", serde_json::to_string_pretty(&g.to_json()).unwrap());
+    let b = build(&g);
+    for t in &parts[2..] {
+        match exec::execute(&b.db, lang, t) {
+            Ok(Ok(res)) => {
+                println!("{t}\n  columns={:?} rows={}", res.columns, res.rows.len());
+                for row in res.rows.iter().take(40) {
+                    println!("    {row:?}");
+                }
+            }
+            Ok(Err(e)) => println!("{t}\n  ERR {e}"),
+            Err(p) => println!("{t}\n  PANIC {} at {}", p.msg, p.at),
+        }
+    }
+    std::process::exit(0);
+}
+
+pub fn assumptions() -> Vec<String> {
+    vec![
+        "pattern semantics: all bindings (homomorphism): node and edge variables may repeat entities; variable-length patterns enumerate walks (edges may repeat), one row per walk — this is what expand.rs / variable_length_expand.rs implement".into(),
+        "undirected pattern -[]-: one binding per (edge, way it connects the two nodes); a self-loop connects its node to itself in one way".into(),
+        "WHERE keeps a binding only when the predicate is true under Kleene logic; a missing property and a property stored as null are both null".into(),
+        "= / <> between values of different kinds is false / true; < <= > >= between different kinds, and between booleans, is unknown; arithmetic on a non-number is null".into(),
+        "freedoms compared modulo: order among ties, placement of nulls in ORDER BY (any of first/last/smallest/largest), order between values of different kinds (not checked), sum of ints may be Int or Float, sum of an empty group is 0, avg/min/max of an empty group is null, order of labels(n) and of collect() lists".into(),
+        "sum/avg ignore non-numeric values (A-sum); min/max over values of different kinds is not judged (case skipped)".into(),
+        "with SKIP/LIMIT and no total order any n rows of the full result are accepted; with ORDER BY the returned sort keys must equal keys s..s+n of the ordered full result".into(),
+        "projection of a missing property is null in every language (Gremlin values() on a missing key: the engine emits null, compared under that convention)".into(),
+        "not generated because every front end rejects it with Err (re-checked by probes on each run): UNION ALL in Cypher / union() in Gremlin (GQL accepts the text but ignores the second branch: C11-F28), grouping by type()/labels()/id(), arithmetic in RETURN, ORDER BY a group key in an aggregating RETURN, ORDER BY id()/type()/labels(), Gremlin repeat()/select().by()".into(),
+        "Gremlin subset: linear traversal, has()/hasNot()/hasLabel() per vertex (conjunctions of single-property tests), values()/id()/label() of the last vertex, dedup, one order().by(key), skip/limit, one ungrouped aggregate; GraphQL subset: root type = label, nested fields = outgoing typed edges, where-arguments (conjunctions), scalar property selections, orderBy/skip/first on the root".into(),
+        "limits (DESIGN L): only the generated core — a single path pattern with 0-3 hops; no OPTIONAL MATCH, WITH chains, subqueries, list comprehensions, path functions; epoch-0 data only".into(),
+    ]
+}
+
+pub fn run(tier: Tier, seed: u64) -> ! {
+    if std::env::var("C08_PLAY").is_ok() {
+        playground();
+    }
+    let mut rep = Report::new("C08", tier, seed, "exploration");
+    rep.rule = "random (graph 0-40 nodes, query from the core AST) pairs, each executed in every language that can express it and compared with the reference evaluator; non-trivial = query with >=1 edge pattern or >=1 predicate whose reference result has >=1 row; distinct by hash of (query AST, graph size)".into();
+    rep.assumptions = assumptions();
+    let dev = if std::env::var("C08_NO_RULES").is_ok() { Rules::none() } else { Rules::from_open(|id| rep.findings.rule_open(id)) };
+    rep.extra.insert(
+        "deviation_rules_on".into(),
+        json!(eval::RULE_IDS.iter().filter(|x| dev.on(x.0)).map(|x| format!("{} ({:?})", x.1, x.0)).collect::<Vec<_>>()),
+    );
+    rep.extra.insert(
+        "scheme".into(),
+        json!("A_spec = reference evaluation; A_dev = reference evaluation with the named deviation rule of every open finding; obs == A_spec: agree; obs == A_dev != A_spec: KNOWN-FINDING of the minimal explaining rule set; otherwise the pair is shrunk and reported under language|kind|skeleton"),
+    );
+    probes(&mut rep);
+    for (g, q, rules) in directed(&dev) {
+        let mut out = CaseOut::default();
+        process(&g, &q, &rules, &mut out, "directed");
+        merge(&mut rep, out);
+    }
+    let n: u64 = std::env::var("C08_CASES").ok().and_then(|s| s.parse().ok()).unwrap_or(tier.pick(1500, 150_000));
+    let nbig: u64 = tier.pick(24, 2000);
+    let th = threads();
+    for out in run_parallel(n, th, |i| case(seed, i, false, &dev)) {
+        merge(&mut rep, out);
+    }
+    for out in run_parallel(nbig, th, |i| case(seed, i, true, &dev)) {
+        merge(&mut rep, out);
+    }
+    let nhuge: u64 = std::env::var("C08_HUGE").ok().and_then(|s| s.parse().ok()).unwrap_or(tier.pick(16, 600));
+    for out in run_parallel(nhuge, th, |i| huge_case(seed, i, &dev)) {
+        merge(&mut rep, out);
+    }
+    rep.finish()
 }
